@@ -1,6 +1,7 @@
 import PybtexModel.Drv.Json
 import PybtexModel.Drv.C04
 import PybtexModel.Model.BibParse
+import PybtexModel.Spec.Bib
 open Lean
 namespace Pybtex.Drv.C01
 open Pybtex.Bib
@@ -31,6 +32,22 @@ def resultJ (r : St × Option Err) : Json :=
   obj [("entries", arr (r.1.db.entries.map entryJ)), ("preamble", strs r.1.db.preamble),
        ("errors", arr (r.1.errs.map errJ)), ("raised", optJ errJ r.2)]
 
+/-- position (code points consumed) of a located problem: `len(text) - len(unread text)` -/
+def posJ (text : Str) (e : Err) (unread : Str) : Json :=
+  if e.line.isSome then nat (text.length - unread.length) else Json.null
+
+/-- `resultJ` plus, for every reported problem and for the raised one, the position at which it was
+raised (the ghost `errAt`; `null` for the data errors, which carry no position in the code either) -/
+def resultPosJ (text : Str) (r : St × Option Err) : Json :=
+  obj [("entries", arr (r.1.db.entries.map entryJ)), ("preamble", strs r.1.db.preamble),
+       ("errors", arr (r.1.errs.map errJ)), ("raised", optJ errJ r.2),
+       ("errpos", arr ((r.1.errs.zip r.1.errAt).map fun p => posJ text p.1 p.2)),
+       ("raisedpos", optJ (fun e => posJ text e r.1.rest) r.2)]
+
+/-- reference value for the person clause: the persons of a (normalised) name-list value according
+to the specification `BibSpec.personsOf` (`splitNameList` of C12, `Person()` of C04) -/
+def personsSpecJ (v : Str) : Json := arr ((BibSpec.personsOf v).map personJ)
+
 def bibparse (j : Json) : Except String Json := do
   let text ← getStr j "text"
   let strict ← getBool j "strict"
@@ -41,10 +58,15 @@ def bibparse (j : Json) : Except String Json := do
       pure (some l)
     | _ => pure none
   let both := match j.getObjVal? "both" with | .ok (Json.bool true) => true | _ => false
+  let names ← match j.getObjVal? "names" with
+    | .ok (Json.arr a) => a.toList.mapM jsonToStr
+    | _ => pure []
+  let spec := obj [("persons", arr (names.map fun v => arr [strToJson v, personsSpecJ v]))]
   if both then
-    pure (obj [("out", obj [("capture", resultJ (parseBib text false wanted)), ("strict", resultJ (parseBib text true wanted))])])
+    pure (obj [("out", obj [("capture", resultPosJ text (parseBib text false wanted)),
+                            ("strict", resultPosJ text (parseBib text true wanted))]), ("spec", spec)])
   else
-    pure (obj [("out", resultJ (parseBib text strict wanted))])
+    pure (obj [("out", resultJ (parseBib text strict wanted)), ("spec", spec)])
 
 def handlers : List (String × (Json → Except String Json)) := [("bibparse", bibparse)]
 
